@@ -1,6 +1,7 @@
 package rules
 
 import (
+	"fmt"
 	"go/token"
 	"go/types"
 	"strings"
@@ -201,5 +202,135 @@ func checkOutcomeReturned(c *core.Ctx, rule string) {
 	}
 	if n == 0 {
 		c.Undecided(rule, "batched.Handler#outcome-returned", "-", "no single-reply method found")
+	}
+}
+
+// orChainConsts: block b is entered only through the true edges of a chain `x == c1 || x == c2 || ...` over one subject;
+// returns the constants (nil if b has another way in).
+func orChainConsts(b *ssa.BasicBlock, isSubject func(ssa.Value) bool) []int64 {
+	var out []int64
+	if len(b.Preds) == 0 {
+		return nil
+	}
+	for _, p := range b.Preds {
+		ifi, ok := p.Instrs[len(p.Instrs)-1].(*ssa.If)
+		if !ok || p.Succs[0] != b {
+			return nil
+		}
+		bo, ok := ifi.Cond.(*ssa.BinOp)
+		if !ok || bo.Op != token.EQL {
+			return nil
+		}
+		var k int64
+		var isK bool
+		switch {
+		case isSubject(bo.X):
+			k, isK = ssax.ConstInt(bo.Y)
+		case isSubject(bo.Y):
+			k, isK = ssax.ConstInt(bo.X)
+		}
+		if !isK {
+			return nil
+		}
+		out = append(out, k)
+	}
+	return out
+}
+
+// checkReaderDecodesHits (R6.13): the pool reader decodes a hit as the backend frames it. The response it hands to the
+// caller takes Flags from the first extras word read after the header and Exptime from the second, and that second
+// word is read exactly for the opcodes whose replies carry it (gete, geteq: 8 bytes of extras; get, getq, gat: 4). An
+// expiry read for another opcode eats the first four bytes of the value; flags and expiry exchanged give the caller an
+// item with the wrong flags and the get back-fill a wrong lifetime.
+func checkReaderDecodesHits(c *core.Ctx, rule string) {
+	rd := findFunc(c, relBatched, "(*conn).reader", rolePoolReader)
+	if rd == nil {
+		c.Undecided(rule, "batched.(*conn).reader#hit-decoding", "-", "reader not found")
+		return
+	}
+	n := 0
+	// the response records built in the reader, wherever they live (a literal of their own, or the gr field of the
+	// pool's response built in place): field stores grouped by the record's address
+	recs := map[ssa.Value]map[string]ssa.Value{}
+	var order []ssa.Value
+	ssax.Instrs(rd, func(ins ssa.Instruction) {
+		st, ok := ins.(*ssa.Store)
+		if !ok {
+			return
+		}
+		fa, ok := st.Addr.(*ssa.FieldAddr)
+		if !ok || !strings.HasSuffix(ssax.ShortType(fa.X.Type()), "common.GetEResponse") {
+			return
+		}
+		if recs[fa.X] == nil {
+			recs[fa.X] = map[string]ssa.Value{}
+			order = append(order, fa.X)
+		}
+		f, _ := ssax.FieldName(fa)
+		recs[fa.X][f] = st.Val
+	})
+	for _, base := range order {
+		fields := recs[base]
+		literalField := func(_ ssa.Value, f string) ssa.Value { return fields[f] }
+		al := base
+		dv := fields["Data"]
+		if dv == nil || ssax.IsNilConst(dv) {
+			continue
+		}
+		n++
+		key := "batched.(*conn).reader#hit-decoding"
+		var bad []string
+		word := func(field string) *ssa.Call {
+			v := literalField(al, field)
+			if v == nil {
+				return nil
+			}
+			var found *ssa.Call
+			for _, d := range ssax.Defs(v) {
+				if call, ok := ssax.Unwrap(d).(*ssa.Call); ok && strings.Contains(ssax.CalleeName(&call.Call), "ndian).Uint32") {
+					found = call
+				}
+			}
+			return found
+		}
+		fl, ex := word("Flags"), word("Exptime")
+		switch {
+		case fl == nil:
+			bad = append(bad, "Flags is not a 32-bit word decoded from the reply")
+		case ex == nil:
+			bad = append(bad, "Exptime is not a 32-bit word decoded from the reply")
+		case fl == ex:
+			bad = append(bad, "Flags and Exptime are the same word")
+		default:
+			if !fl.Block().Dominates(ex.Block()) || (fl.Block() == ex.Block() && ssax.IndexIn(fl) > ssax.IndexIn(ex)) {
+				bad = append(bad, "the word returned as Flags is not the first extras word (the word returned as Exptime is decoded before it)")
+			}
+			isOpcode := func(v ssa.Value) bool { return isFieldLoad(v, "Opcode") }
+			// the guard of the second read: the nearest or-chain on the opcode dominating the expiry word
+			var got []int64
+			for b := ex.Block(); b != nil && got == nil; b = b.Idom() {
+				got = orChainConsts(b, isOpcode)
+			}
+			want := map[int64]bool{}
+			for _, nm := range []string{"OpcodeGetE", "OpcodeGetEQ"} {
+				if k, ok := namedConst(c, "protocol/binprot", nm); ok {
+					want[k] = true
+				}
+			}
+			same := len(got) == len(want)
+			for _, k := range got {
+				if !want[k] {
+					same = false
+				}
+			}
+			if !same {
+				bad = append(bad, fmt.Sprintf("the second extras word is read for opcodes %v; only gete/geteq replies (0x40, 0x41) carry it", got))
+			}
+		}
+		c.Check(len(bad) == 0, rule, key, c.P.Pos(al.Pos()), "Flags from the first extras word, Exptime from the second, read for gete/geteq only",
+			strings.Join(bad, "; ")+": the caller gets other flags / another lifetime than a direct connection returns, or the value is read four bytes late")
+	}
+	if n == 0 {
+		c.Undecided(rule, "batched.(*conn).reader#hit-decoding", c.P.Pos(rd.Pos()), "the reader builds no hit response")
 	}
 }
